@@ -9,3 +9,4 @@ import ExaModel.Props.C05
 #print axioms Exa.Props.C05.leave_closes
 #print axioms Exa.Props.C05.transports_closed_or_current
 #print axioms Exa.Props.C05.up_down_alternate
+#print axioms Exa.Props.C05.handle_connection_py_is_model
